@@ -90,7 +90,7 @@ fn main() {
             let samples: usize = arg(&args, "--samples").and_then(|x| x.parse().ok()).unwrap_or(5);
             let seed: u64 = arg(&args, "--seed").and_then(|x| x.parse().ok()).unwrap_or(1);
             let k: f64 = arg(&args, "--k").and_then(|x| x.parse().ok()).unwrap_or(64.0);
-            let cases = if arg(&args, "--what").as_deref() == Some("special") { prog::special_cases() } else { prog::pow_cases() };
+            let cases = match arg(&args, "--what").as_deref() { Some("special") => prog::special_cases(), Some("atan2") => prog::atan2_cases(), _ => prog::pow_cases() };
             let r = float::load(&files).and_then(|t| prog::op_sweep(&t, &cases, samples, seed, k, arg(&args, "--types").as_deref()));
             match r {
                 Ok(v) => println!("{v}"),
